@@ -232,7 +232,7 @@ def run(ctx):
             netutils._is_int_in_range = saved
     ctx.selftest_internal(exposed, 'widening netutils._is_int_in_range does not change is_valid_port')
     ctx.cov['rule'] = ('token-level grammars enumerated by TLC (dotted quads with 1..5 parts and 22 octet spellings; IPv6 with 0..9 '
-                       'groups, every :: placement, embedded IPv4, scope ids of length 0..17; CIDRs with 0..2 slashes and 14 prefix '
+                       'groups, every :: placement, embedded IPv4 (also the 45-character spelling), scope ids of length 0..17; CIDRs with 0..2 slashes and 14 prefix '
                        'spellings for both families; MACs with 4..8 groups and 4 separators; integers around each range end in four '
                        'forms), all strings up to length 6/7 over an 8-symbol alphabet for IPv4, random strings for totality; '
                        'ipaddress as second oracle wherever it defines the answer')
